@@ -46,6 +46,9 @@ func init() {
 			{ID: "R05s", Floor: 1, Doc: "the deferred writer hands every put to the underlying writer, whose de-duplication options decide (= R20f)", Run: ruleR20f},
 			{ID: "R05t", Floor: 1, Doc: "the library's own inspection accepts a finalized archive of any put history, none included: no division by a block count that can be zero (= R09k)", Run: ruleR09k},
 			{ID: "R05u", Floor: 1, Doc: "a resumed session appends right behind the last section (= R06c)", Run: ruleR06c},
+			{ID: "R05v", Floor: 1, Doc: "a resumed session finalizes under the roots it was given: Resume's header comparison demands equal root counts (= R12s)", Run: ruleR12s},
+			{ID: "R05w", Floor: 1, Doc: "no identity-CID section is written with StoreIdentityCIDs off: identity is decided by the multihash code alone (= R04w)", Run: ruleR04w},
+			{ID: "R05x", Floor: 1, Doc: "the roots handed to a writer constructor are a list: a root list built locally starts from make or a literal, never from the nil slice (which the header encoder writes as CBOR null)", Run: ruleR05x},
 		},
 	})
 }
@@ -53,6 +56,10 @@ func init() {
 // symbolic evaluation of the fields of a local struct cell in a single-path function.
 // Returns final Aff per field name.
 func evalHeaderFields(fn *ssa.Function) (map[string]Aff, string) {
+	return evalHeaderFieldsD(fn, 0)
+}
+
+func evalHeaderFieldsD(fn *ssa.Function, depth int) (map[string]Aff, string) {
 	if len(fn.Blocks) != 1 {
 		return nil, "function is no longer straight-line code"
 	}
@@ -96,8 +103,51 @@ func evalHeaderFields(fn *ssa.Function) (map[string]Aff, string) {
 			cur[st.Field(i).Name()] = affAtom("h." + st.Field(i).Name())
 		}
 	}
+	snaps := map[ssa.Value]map[string]Aff{}
 	for _, in := range fn.Blocks[0].Instrs {
 		switch x := in.(type) {
+		case *ssa.Return:
+			// the function ends by delegating to a sibling on its own copy:
+			// `return h.WithIndexPadding(p)`; compose the two field maps.
+			if len(x.Results) != 1 || depth > 2 {
+				break
+			}
+			call, ok := x.Results[0].(*ssa.Call)
+			if !ok {
+				break
+			}
+			callee := staticTarget(call.Common())
+			if callee == nil || callee.Signature.Recv() == nil || len(call.Call.Args) != 2 || len(callee.Params) != 2 ||
+				!isNamed(callee.Params[0].Type(), modV2, "Header") || !isIntegral(callee.Params[1].Type()) {
+				return nil, "the result is produced by a call this rule cannot follow"
+			}
+			snap, ok := snaps[call.Call.Args[0]]
+			if !ok {
+				return nil, "the result is produced by a call on something other than the local Header value"
+			}
+			inner, why := evalHeaderFieldsD(callee, depth+1)
+			if why != "" {
+				return nil, "delegate " + callee.Name() + ": " + why
+			}
+			arg := evalv(call.Call.Args[1])
+			out := map[string]Aff{}
+			for f, a := range inner {
+				res := Aff{K: a.K}
+				for k, c := range a.T {
+					switch {
+					case strings.HasPrefix(k, "h."):
+						if v, ok := snap[strings.TrimPrefix(k, "h.")]; ok {
+							res = res.add(v.scale(c), 1)
+						}
+					case k == "param:"+callee.Params[1].Name():
+						res = res.add(arg.scale(c), 1)
+					default:
+						res = res.add(affAtom(k).scale(c), 1)
+					}
+				}
+				out[f] = res
+			}
+			return out, ""
 		case *ssa.Store:
 			if x.Addr == ssa.Value(cell) {
 				// whole-struct store: from the receiver parameter, or a composite (zero) value
@@ -111,6 +161,13 @@ func evalHeaderFields(fn *ssa.Function) (map[string]Aff, string) {
 				cur[fv.Name()] = evalv(x.Val)
 			}
 		case *ssa.UnOp:
+			if x.Op == token.MUL && x.X == ssa.Value(cell) {
+				snap := map[string]Aff{}
+				for k, v := range cur {
+					snap[k] = v
+				}
+				snaps[x] = snap
+			}
 			if x.Op == token.MUL {
 				if fa, ok := x.X.(*ssa.FieldAddr); ok && fa.X == ssa.Value(cell) {
 					fv := fieldVar(fa.X.Type(), fa.Field)
